@@ -165,6 +165,9 @@ func runSM(c SMCase) (*smStats, error) {
 
 	var cl *rawClient
 	var S *mSession // the session the model follows
+	// linked: the current connection has carried a successful request of the model's session; from then on the server
+	// refuses, on that connection, any request naming another session (a connection serves one session)
+	linked := false
 	sessCount := 0
 	connect := func() error {
 		rc, err := dialRaw(w.Host)
@@ -172,6 +175,7 @@ func runSM(c SMCase) (*smStats, error) {
 			return fmt.Errorf("harness: dial: %v", err)
 		}
 		cl = rc
+		linked = false
 		st.Conns++
 		return nil
 	}
@@ -337,6 +341,9 @@ func runSM(c SMCase) (*smStats, error) {
 					cls, next = clsOK, stPreRecord
 				case !inSess:
 					cls = clsEither // a session-less creating request next to a live session
+					if linked && sp.Sess == "wrong" {
+						cls = clsErr // the connection is linked to the model's session and the request names another one
+					}
 				}
 			case "SETUP":
 				target := stNone
@@ -347,8 +354,11 @@ func runSM(c SMCase) (*smStats, error) {
 					target = S.state
 				default:
 					cls = clsEither
+					if linked && sp.Sess == "wrong" {
+						cls = clsErr // the connection is linked to the model's session and the request names another one
+					}
 				}
-				if cls == clsEither {
+				if cls == clsEither || (cls == clsErr && linked && sp.Sess == "wrong" && S != nil && !inSess) {
 					break
 				}
 				protoOK := sp.Proto == "tcp" || c.UDP
@@ -430,6 +440,9 @@ func runSM(c SMCase) (*smStats, error) {
 					S.id = sessionIDOf(res) // learnt from the first SETUP response after a bare ANNOUNCE
 				}
 				tracked = true
+			}
+			if tracked && sp.Method != "DESCRIBE" { // (DESCRIBE is answered by the connection, it never reaches a session)
+				linked = true
 			}
 			if tracked && sp.Method == "ANNOUNCE" {
 				S.announced = 2
